@@ -184,6 +184,8 @@ func init() {
 						{"tag (x+1000, 3y)", func(p orb.Point) orb.Point { return orb.Point{p[0] + 1000, 3 * p[1]} }},
 						{"axis reversing (-x, 100-y)", func(p orb.Point) orb.Point { return orb.Point{-p[0], 100 - p[1]} }},
 						{"swap (y, x)", func(p orb.Point) orb.Point { return orb.Point{p[1], p[0]} }},
+						{"rotate and scale (x-y, x+y)", func(p orb.Point) orb.Point { return orb.Point{p[0] - p[1], p[0] + p[1]} }},
+						{"shear (x+2y, y)", func(p orb.Point) orb.Point { return orb.Point{p[0] + 2*p[1], p[1]} }},
 					}
 					pj := projs[r.Intn(len(projs))]
 					want := refProject(g, pj.f)
